@@ -278,7 +278,10 @@ func (l *VegasLimit) updateEstimatedLimit(startTime int64, rtt int64, inFlight i
 	}
 
 	newLimit = math.Max(1, math.Min(float64(l.maxLimit), newLimit))
-	newLimit = (1-l.smoothing)*l.estimatedLimit + l.smoothing*newLimit
+	// The smoothed value is a convex combination of the old estimate and the target; floating point rounding
+	// must not push it outside of them (e.g. 0.95*3+0.05*3 < 3 would report a limit of 2 at a ceiling of 3).
+	lower, upper := math.Min(l.estimatedLimit, newLimit), math.Max(l.estimatedLimit, newLimit)
+	newLimit = math.Max(lower, math.Min(upper, (1-l.smoothing)*l.estimatedLimit+l.smoothing*newLimit))
 
 	if int(newLimit) != int(l.estimatedLimit) && l.logger.IsDebugEnabled() {
 		l.logger.Debugf("New limit=%d, minRTT=%d ms, winRTT=%d ms, queueSize=%d",
